@@ -1208,14 +1208,23 @@ class Signature:
             if composite not in composite_to_name:
                 return
             name = composite_to_name[composite]
+            if self.parameters[name].kind is ParameterKind.POSITIONAL_ONLY:
+                # cannot be passed by keyword
+                new_args.append(arg)
+                continue
             new_keywords.append(ast.keyword(arg=name, value=arg))
-        new_keywords += node.keywords
-        new_node = ast.Call(func=node.func, args=new_args, keywords=new_keywords)
+        if len(new_args) == len(node.args):
+            # everything is positional-only; there is nothing to rewrite
+            replacement = None
+        else:
+            new_keywords += node.keywords
+            new_node = ast.Call(func=node.func, args=new_args, keywords=new_keywords)
+            replacement = ctx.visitor.replace_node(node, new_node)
         ctx.visitor.show_error(
             node,
             f"Too many positional arguments for {stringify_object(self.callable)}",
             error_code=ErrorCode.too_many_positional_args,
-            replacement=ctx.visitor.replace_node(node, new_node),
+            replacement=replacement,
         )
 
     def check_call_preprocessed(
